@@ -287,6 +287,7 @@ func variants() []variant {
 		{"map.start-only", "map.start", 0, func(m *ap.Map) { m.Start -= 0x800; m.Limit -= 0x800 }},           // relative addresses differ
 		{"map.size-sameclass", "map.size", 0, func(m *ap.Map) { m.Limit -= 0x100 }},
 		{"map.size-otherclass", "map.size", 0, func(m *ap.Map) { m.Limit += 0x1000 }},
+		{"map.size-onebyte-more", "map.size", 0, func(m *ap.Map) { m.Limit++ }}, // one byte over a page multiple: the next size class
 		{"map.offset", "map.offset", 0, func(m *ap.Map) { m.Offset += 0x1000 }},
 		{"map.file-withbuildid", "map.file-withbuildid", 0, func(m *ap.Map) { m.File += "2" }},
 		{"map.buildid", "map.buildid", 0, func(m *ap.Map) { m.BuildID += "2" }},
